@@ -805,7 +805,7 @@ class E2EModelStream(Stream):
         mc = model_canon(self._model_cache[self._key(case)])
         if isinstance(mc, str):
             return mc
-        # theorem-hypothesis tie: the driver evaluated plainNames and noEmptyNoticeB (the decidable hypotheses of
+        # theorem-hypothesis tie: the driver evaluated plainNames (the decidable hypothesis of
         # C01_e2e_verdict_partial) on this case; where they hold the theorem's conclusion — verdict <-> clauses (a)-(d) on
         # the tree — is demanded of the implementation in `agree`
         self.hyp_count[mc[1]] = self.hyp_count.get(mc[1], 0) + 1
@@ -824,7 +824,7 @@ class E2EModelStream(Stream):
                 return False
         if canon_files(a["files"]) != canon_files(b["files"]):
             return False
-        if b.get("hyp") == "11":
+        if b.get("hyp", "")[:1] == "1":      # plainNames (blank copyright strings need no hypothesis since 64fab59)
             exp = truth(case)
             if exp["status"] == "ok" and (a["exit"] == 0) != (not exp["violated"]):
                 return False
